@@ -303,6 +303,8 @@ R_SkipUntouched == \A t \in Tasks : tres[t].dec > 0 => InRange(Id(t))
 \* C07: once a failure is published no task starts reading the stream
 \* (checked as an action property below)
 R_CancelSticks == [][\A t \in Tasks : (counter = CANCEL /\ tpc[t] = "wait") => tpc'[t] # "shared"]_vars
+\* C18: ownership. Tasks exist only while the caller waits in the join; each task owns the buffers of its slot.
+R_Ownership == rpc # "join" => \A t \in Tasks : tpc[t] = "idle"
 \* C17
 R_ClosedRefuses == (closed /\ rpc = "idle" /\ lastRet.err # "none") => lastRet.err = "closed"
 \* C03/C07 liveness: every call returns, every task finishes
